@@ -39,7 +39,24 @@ def sharing_doc(rng):
         gid = rng.choice(g.grad_ids)
         # the only user of a gradient is invisible
         src = src.replace("</svg>", '<rect width="0" height="10" fill="url(#%s)"/><path d="M1,1" fill="url(#%s)"/></svg>' % (gid, gid))
+    elif k < 0.7 and g.grad_ids:
+        gid = rng.choice(g.grad_ids)
+        # a gradient whose only user is text (kept with allow_text) or sits inside an unsupported element (dropped with
+        # drop_unsupported)
+        src = src.replace("</svg>", rng.choice(['<text x="5" y="20" fill="url(#%s)">Hi</text></svg>',
+                                                  '<foo><rect width="9" height="9" fill="url(#%s)"/></foo></svg>']) % gid)
     return src
+
+
+def gen_case(rng):
+    src = sharing_doc(rng)
+    at = "<text" in src and rng.random() < 0.9
+    dr = "<foo" in src and rng.random() < 0.9
+    return {"src": src, "ndigits": 3, "allow_text": at or rng.random() < 0.1, "drop": dr or rng.random() < 0.1}
+
+
+def ops_of(c):
+    return ["topicosvg 3 %d %d" % (int(c.get("allow_text", False)), int(c.get("drop", False)))]
 
 
 def refs_check(text):
@@ -80,8 +97,8 @@ def correspondence(ctx):
     rng = ctx.rng
     cases = []
     for _ in range(n):
-        cases.append({"src": sharing_doc(rng), "ndigits": 3})
-    runs = [pipeline.Run(c["src"], ["topicosvg 3 0 0"]) for c in cases]
+        cases.append(gen_case(rng))
+    runs = [pipeline.Run(c["src"], ops_of(c)) for c in cases]
     live = [(c, r) for c, r in zip(cases, runs) if r.in_wire is not None]
     outs = ctx.model([r.model_line() for _, r in live])
     dis = []
@@ -104,8 +121,8 @@ def correspondence(ctx):
 def search(ctx, disagreements):
     live = getattr(ctx, "_runs", None)
     if live is None:
-        cases = [{"src": sharing_doc(ctx.rng), "ndigits": 3} for _ in range(120)]
-        live = [(c, pipeline.Run(c["src"], ["topicosvg 3 0 0"])) for c in cases]
+        cases = [gen_case(ctx.rng) for _ in range(120)]
+        live = [(c, pipeline.Run(c["src"], ops_of(c))) for c in cases]
     found = []
     for c, r in live:
         if r.outcome != "ok":
@@ -129,7 +146,7 @@ def classify(v, findings):
 def replay(ctx, payload):
     if payload.get("kind") == "refs":
         c = payload["input"]
-        r = pipeline.Run(c["src"], ["topicosvg 3 0 0"])
+        r = pipeline.Run(c["src"], ops_of(c))
         why = refs_check(r.out_text) if r.outcome == "ok" else None
         return {"fails": bool(why), "detail": why, "output": r.out_text}
     return {"fails": bool(ctx.tie_breaks), "no_longer_checks": ctx.tie_breaks}
